@@ -11,7 +11,17 @@ use tftpd::{Config, Server};
 pub const BACKSTOP: Duration = Duration::from_millis(3000);
 
 pub fn task_count() -> usize {
-    // number of threads of this process
+    // number of threads of this process: the kernel's own counter (listing /proc/self/task can miss a thread
+    // when another one exits during the listing, which made quiescence detection return early once in ~40 000 runs)
+    if let Ok(s) = std::fs::read_to_string("/proc/self/status") {
+        for l in s.lines() {
+            if let Some(v) = l.strip_prefix("Threads:") {
+                if let Ok(n) = v.trim().parse::<usize>() {
+                    return n;
+                }
+            }
+        }
+    }
     std::fs::read_dir("/proc/self/task").map(|d| d.count()).unwrap_or(0)
 }
 
